@@ -97,9 +97,14 @@ def mutations(rnd, img, n_mut):
             v = rnd.choice([0, 1, 2, 3, 5, 255, 256, 65535, 65536, 0x7fffffff, 0xffffffff])
             b[p:p + 4] = v.to_bytes(4, rnd.choice(["little", "big"]))
             out.append(("word", bytes(b)))
-        elif r < 0.85:
+        elif r < 0.80 and n >= 8:
+            p = 8 * rnd.randrange(n // 8)
+            v = rnd.choice([2 ** 64 - 1, 0xFFFFFFFF00000002, 2 ** 63, 2 ** 63 + 1, 2 ** 32, 2 ** 61 + 1])
+            b[p:p + 8] = v.to_bytes(8, rnd.choice(["little", "big"]))
+            out.append(("qword", bytes(b)))
+        elif r < 0.87:
             out.append(("ext", bytes(b) + bytes(rnd.randrange(256) for _ in range(rnd.randint(1, 5)))))
-        elif r < 0.93 and n >= 2:
+        elif r < 0.94 and n >= 2:
             p = rnd.randrange(n - 1)
             q = rnd.randrange(p + 1, n)
             out.append(("cut", bytes(b[:p] + b[q:])))
